@@ -149,7 +149,17 @@ func (d *driver) modfileArgs() []string {
 
 // buildWorker compiles cmd/vworker against /repo's current tree.
 func (d *driver) buildWorker(race bool, extra ...string) (string, error) {
-	name := "vworker"
+	return d.buildWorkerFor("./cmd/vworker", "", race, extra...)
+}
+
+func (d *driver) buildWorkerFor(pkg, goarch string, race bool, extra ...string) (string, error) {
+	if pkg == "" {
+		pkg = "./cmd/vworker"
+	}
+	name := filepath.Base(pkg)
+	if goarch != "" {
+		name += "-" + goarch
+	}
 	args := append([]string{"build"}, d.modfileArgs()...)
 	args = append(args, "-tags", "verif")
 	if race {
@@ -161,9 +171,12 @@ func (d *driver) buildWorker(race bool, extra ...string) (string, error) {
 		args = append(args, e)
 	}
 	out := filepath.Join(d.scratch, name)
-	args = append(args, "-o", out, "./cmd/vworker")
+	args = append(args, "-o", out, pkg)
 	cmd := exec.Command("go", args...)
 	cmd.Dir = verifDir
+	if goarch != "" {
+		cmd.Env = append(os.Environ(), "GOARCH="+goarch, "CGO_ENABLED=0")
+	}
 	b, err := cmd.CombinedOutput()
 	if err != nil {
 		return "", fmt.Errorf("building worker from /repo failed: %v\n%s", err, b)
@@ -222,7 +235,7 @@ func (d *driver) runOne(ri int, r *runSpec, kf *knownFile) error {
 	if b, _ := d.tierSize(r); b == 0 {
 		return nil
 	}
-	bin, err := d.buildWorker(r.race, r.buildFlags...)
+	bin, err := d.buildWorkerFor(r.pkg, r.goarch, r.race, r.buildFlags...)
 	if err != nil {
 		// A tree that does not compile is not a property verdict.
 		return err
@@ -601,7 +614,7 @@ func (d *driver) replay(path string) int {
 		fmt.Fprintf(os.Stderr, "vcheck: replay names engine %q which is not part of %s\n", rp.Engine, d.prop)
 		return 3
 	}
-	bin, err := d.buildWorker(r.race, r.buildFlags...)
+	bin, err := d.buildWorkerFor(r.pkg, r.goarch, r.race, r.buildFlags...)
 	if err != nil {
 		fmt.Fprintf(os.Stderr, "vcheck: %v\n", err)
 		return 3
